@@ -12,10 +12,10 @@ package momentum
 //@ ensures[C02] len(result) == max(0, len(highs) - (a.IdlePeriod()))
 //@ ensures[C03] consumed(highs) == len(highs) && consumed(lows) == len(lows) && closed(result)
 //@ ensures[C04] forall kk :: 0 <= kk && kk < len(result) ==> hor(result, kk) <= max(hor(highs, kk + (a.IdlePeriod())), hor(lows, kk + (a.IdlePeriod())))
-//@ step[C01] "median" forall j :: 0 <= j && j < len(highs) ==> medianSplice[0][j] == medS(highs, lows)[j] && medianSplice[1][j] == medS(highs, lows)[j]
+//@ step[C01,C18] "median" forall j :: 0 <= j && j < len(highs) ==> medianSplice[0][j] == medS(highs, lows)[j] && medianSplice[1][j] == medS(highs, lows)[j]
 //@ use psum_cong(medianSplice[0], medS(highs, lows), _)
 //@ use psum_cong(medianSplice[1], medS(highs, lows), _)
-//@ ensures[C01] "documented" forall k :: 0 <= k && k < len(result) ==> result[k] == aoS(highs, lows, a.ShortSma.Period, a.LongSma.Period)[k]
+//@ ensures[C01,C18] "documented" forall k :: 0 <= k && k < len(result) ==> result[k] == aoS(highs, lows, a.ShortSma.Period, a.LongSma.Period)[k]
 
 //@ func ChaikinOscillator.Compute
 //@ requires c.ShortEma.Period >= 1 && c.ShortEma.Period <= c.LongEma.Period && consumed(highs) == 0 && consumed(lows) == 0 && consumed(closings) == 0 && consumed(volumes) == 0 && len(highs) == len(lows) && len(highs) == len(closings) && len(highs) == len(volumes)
@@ -23,11 +23,11 @@ package momentum
 //@ ensures[C03] consumed(highs) == len(highs) && consumed(lows) == len(lows) && consumed(closings) == len(closings) && consumed(volumes) == len(volumes) && closed(result0) && closed(result1)
 //@ ensures[C04] forall kk :: 0 <= kk && kk < len(result0) ==> hor(result0, kk) <= max(hor(highs, kk + (c.IdlePeriod())), max(hor(lows, kk + (c.IdlePeriod())), max(hor(closings, kk + (c.IdlePeriod())), hor(volumes, kk + (c.IdlePeriod())))))
 //@ ensures[C04] forall kk :: 0 <= kk && kk < len(result1) ==> hor(result1, kk) <= max(hor(highs, kk + (c.IdlePeriod())), max(hor(lows, kk + (c.IdlePeriod())), max(hor(closings, kk + (c.IdlePeriod())), hor(volumes, kk + (c.IdlePeriod())))))
-//@ step[C01] "ad" forall j :: 0 <= j && j < len(highs) ==> adSplice[0][j] == adS(highs, lows, closings, volumes)[j] && adSplice[1][j] == adS(highs, lows, closings, volumes)[j]
+//@ step[C01,C18] "ad" forall j :: 0 <= j && j < len(highs) ==> adSplice[0][j] == adS(highs, lows, closings, volumes)[j] && adSplice[1][j] == adS(highs, lows, closings, volumes)[j]
 //@ use ema_cong(adSplice[0], adS(highs, lows, closings, volumes), c.ShortEma.Period, emam(c.ShortEma), _)
 //@ use ema_cong(adSplice[1], adS(highs, lows, closings, volumes), c.LongEma.Period, emam(c.LongEma), _)
-//@ ensures[C01] "documented" forall k :: 0 <= k && k < len(result0) ==> result0[k] == emaS(adS(highs, lows, closings, volumes), c.ShortEma.Period, emam(c.ShortEma), k + c.LongEma.Period - c.ShortEma.Period) - emaS(adS(highs, lows, closings, volumes), c.LongEma.Period, emam(c.LongEma), k)
-//@ ensures[C01] "ad-aligned" forall k :: 0 <= k && k < len(result1) ==> result1[k] == adS(highs, lows, closings, volumes)[k + c.LongEma.Period - 1]
+//@ ensures[C01,C18] "documented" forall k :: 0 <= k && k < len(result0) ==> result0[k] == emaS(adS(highs, lows, closings, volumes), c.ShortEma.Period, emam(c.ShortEma), k + c.LongEma.Period - c.ShortEma.Period) - emaS(adS(highs, lows, closings, volumes), c.LongEma.Period, emam(c.LongEma), k)
+//@ ensures[C01,C18] "ad-aligned" forall k :: 0 <= k && k < len(result1) ==> result1[k] == adS(highs, lows, closings, volumes)[k + c.LongEma.Period - 1]
 
 // the lagging span is documented as the closing shifted LaggingPeriod back; all five outputs must obey the warm-up law
 // Conversion Line = (9-Period High + 9-Period Low) / 2, Base Line = (26-Period High + 26-Period Low) / 2,
@@ -49,9 +49,9 @@ package momentum
 //@ use wmin_cong(lowsSplice[0], lows, _, _)
 //@ use wmin_cong(lowsSplice[1], lows, _, _)
 //@ use wmin_cong(lowsSplice[2], lows, _, _)
-//@ ensures[C01] "conversion-base" forall k :: 0 <= k && k < len(result0) ==> result0[k] == (wmaxS(highs, k + i.LeadingMax.Period - i.ConversionMax.Period, k + i.LeadingMax.Period) + wminS(lows, k + i.LeadingMax.Period - i.ConversionMax.Period, k + i.LeadingMax.Period)) / 2 && result1[k] == (wmaxS(highs, k + i.LeadingMax.Period - i.BaseMax.Period, k + i.LeadingMax.Period) + wminS(lows, k + i.LeadingMax.Period - i.BaseMax.Period, k + i.LeadingMax.Period)) / 2
-//@ ensures[C01] "leading-spans" forall k :: 0 <= k && k < len(result2) ==> result2[k] == (result0[k] + result1[k]) / 2 && result3[k] == (wmaxS(highs, k + i.LeadingMax.Period - i.LeadingMax.Period, k + i.LeadingMax.Period) + wminS(lows, k + i.LeadingMax.Period - i.LeadingMax.Period, k + i.LeadingMax.Period)) / 2
-//@ ensures[C01] "lagging-span" forall k :: 0 <= k && k < len(result4) && k < len(result0) ==> result4[k] == (k + i.LeadingMax.Period - 1 >= i.LaggingPeriod ? closings[k + i.LeadingMax.Period - 1 - i.LaggingPeriod] : 0)
+//@ ensures[C01,C18] "conversion-base" forall k :: 0 <= k && k < len(result0) ==> result0[k] == (wmaxS(highs, k + i.LeadingMax.Period - i.ConversionMax.Period, k + i.LeadingMax.Period) + wminS(lows, k + i.LeadingMax.Period - i.ConversionMax.Period, k + i.LeadingMax.Period)) / 2 && result1[k] == (wmaxS(highs, k + i.LeadingMax.Period - i.BaseMax.Period, k + i.LeadingMax.Period) + wminS(lows, k + i.LeadingMax.Period - i.BaseMax.Period, k + i.LeadingMax.Period)) / 2
+//@ ensures[C01,C18] "leading-spans" forall k :: 0 <= k && k < len(result2) ==> result2[k] == (result0[k] + result1[k]) / 2 && result3[k] == (wmaxS(highs, k + i.LeadingMax.Period - i.LeadingMax.Period, k + i.LeadingMax.Period) + wminS(lows, k + i.LeadingMax.Period - i.LeadingMax.Period, k + i.LeadingMax.Period)) / 2
+//@ ensures[C01,C18] "lagging-span" forall k :: 0 <= k && k < len(result4) && k < len(result0) ==> result4[k] == (k + i.LeadingMax.Period - 1 >= i.LaggingPeriod ? closings[k + i.LeadingMax.Period - 1 - i.LaggingPeriod] : 0)
 
 // PPO = ((EMA(shortPeriod, prices) - EMA(longPeriod, prices)) / EMA(longPeriod, prices)) * 100 at one bar,
 // Signal = EMA(9, PPO), Histogram = PPO - Signal   (PVO: the same over volumes)
@@ -65,9 +65,9 @@ package momentum
 //@ ensures[C04] forall kk :: 0 <= kk && kk < len(result2) ==> hor(result2, kk) <= hor(closings, kk + (p.IdlePeriod()))
 //@ use ema_cong(closingsSplice[0], closings, p.ShortEma.Period, emam(p.ShortEma), _)
 //@ use ema_cong(closingsSplice[1], closings, p.LongEma.Period, emam(p.LongEma), _)
-//@ step[C01] "line" forall j :: 0 <= j && j < len(ppoSplice[0]) ==> ppoSplice[0][j] == ppoS(closings, p.ShortEma.Period, emam(p.ShortEma), p.LongEma.Period, emam(p.LongEma))[j] && res(Duplicate, 2)[1][j] == ppoS(closings, p.ShortEma.Period, emam(p.ShortEma), p.LongEma.Period, emam(p.LongEma))[j] && res(Duplicate, 2)[2][j] == ppoS(closings, p.ShortEma.Period, emam(p.ShortEma), p.LongEma.Period, emam(p.LongEma))[j]
+//@ step[C01,C18] "line" forall j :: 0 <= j && j < len(ppoSplice[0]) ==> ppoSplice[0][j] == ppoS(closings, p.ShortEma.Period, emam(p.ShortEma), p.LongEma.Period, emam(p.LongEma))[j] && res(Duplicate, 2)[1][j] == ppoS(closings, p.ShortEma.Period, emam(p.ShortEma), p.LongEma.Period, emam(p.LongEma))[j] && res(Duplicate, 2)[2][j] == ppoS(closings, p.ShortEma.Period, emam(p.ShortEma), p.LongEma.Period, emam(p.LongEma))[j]
 //@ use ema_cong(ppoSplice[0], ppoS(closings, p.ShortEma.Period, emam(p.ShortEma), p.LongEma.Period, emam(p.LongEma)), p.SignalEma.Period, emam(p.SignalEma), _)
-//@ ensures[C01] "documented" forall k :: 0 <= k && k < len(result0) ==> result0[k] == ppoS(closings, p.ShortEma.Period, emam(p.ShortEma), p.LongEma.Period, emam(p.LongEma))[k + p.SignalEma.Period - 1] && result1[k] == emaS(ppoS(closings, p.ShortEma.Period, emam(p.ShortEma), p.LongEma.Period, emam(p.LongEma)), p.SignalEma.Period, emam(p.SignalEma), k) && result2[k] == ppoS(closings, p.ShortEma.Period, emam(p.ShortEma), p.LongEma.Period, emam(p.LongEma))[k + p.SignalEma.Period - 1] - emaS(ppoS(closings, p.ShortEma.Period, emam(p.ShortEma), p.LongEma.Period, emam(p.LongEma)), p.SignalEma.Period, emam(p.SignalEma), k)
+//@ ensures[C01,C18] "documented" forall k :: 0 <= k && k < len(result0) ==> result0[k] == ppoS(closings, p.ShortEma.Period, emam(p.ShortEma), p.LongEma.Period, emam(p.LongEma))[k + p.SignalEma.Period - 1] && result1[k] == emaS(ppoS(closings, p.ShortEma.Period, emam(p.ShortEma), p.LongEma.Period, emam(p.LongEma)), p.SignalEma.Period, emam(p.SignalEma), k) && result2[k] == ppoS(closings, p.ShortEma.Period, emam(p.ShortEma), p.LongEma.Period, emam(p.LongEma))[k + p.SignalEma.Period - 1] - emaS(ppoS(closings, p.ShortEma.Period, emam(p.ShortEma), p.LongEma.Period, emam(p.LongEma)), p.SignalEma.Period, emam(p.SignalEma), k)
 
 //@ func Pvo.Compute
 //@ requires p.ShortEma.Period >= 1 && p.ShortEma.Period <= p.LongEma.Period && p.SignalEma.Period >= 1 && consumed(volumes) == 0
@@ -78,18 +78,18 @@ package momentum
 //@ ensures[C04] forall kk :: 0 <= kk && kk < len(result2) ==> hor(result2, kk) <= hor(volumes, kk + (p.IdlePeriod()))
 //@ use ema_cong(volumesSplice[0], volumes, p.ShortEma.Period, emam(p.ShortEma), _)
 //@ use ema_cong(volumesSplice[1], volumes, p.LongEma.Period, emam(p.LongEma), _)
-//@ step[C01] "line" forall j :: 0 <= j && j < len(pvoSplice[0]) ==> pvoSplice[0][j] == ppoS(volumes, p.ShortEma.Period, emam(p.ShortEma), p.LongEma.Period, emam(p.LongEma))[j] && res(Duplicate, 2)[1][j] == ppoS(volumes, p.ShortEma.Period, emam(p.ShortEma), p.LongEma.Period, emam(p.LongEma))[j] && res(Duplicate, 2)[2][j] == ppoS(volumes, p.ShortEma.Period, emam(p.ShortEma), p.LongEma.Period, emam(p.LongEma))[j]
+//@ step[C01,C18] "line" forall j :: 0 <= j && j < len(pvoSplice[0]) ==> pvoSplice[0][j] == ppoS(volumes, p.ShortEma.Period, emam(p.ShortEma), p.LongEma.Period, emam(p.LongEma))[j] && res(Duplicate, 2)[1][j] == ppoS(volumes, p.ShortEma.Period, emam(p.ShortEma), p.LongEma.Period, emam(p.LongEma))[j] && res(Duplicate, 2)[2][j] == ppoS(volumes, p.ShortEma.Period, emam(p.ShortEma), p.LongEma.Period, emam(p.LongEma))[j]
 //@ use ema_cong(pvoSplice[0], ppoS(volumes, p.ShortEma.Period, emam(p.ShortEma), p.LongEma.Period, emam(p.LongEma)), p.SignalEma.Period, emam(p.SignalEma), _)
-//@ ensures[C01] "documented" forall k :: 0 <= k && k < len(result0) ==> result0[k] == ppoS(volumes, p.ShortEma.Period, emam(p.ShortEma), p.LongEma.Period, emam(p.LongEma))[k + p.SignalEma.Period - 1] && result1[k] == emaS(ppoS(volumes, p.ShortEma.Period, emam(p.ShortEma), p.LongEma.Period, emam(p.LongEma)), p.SignalEma.Period, emam(p.SignalEma), k) && result2[k] == ppoS(volumes, p.ShortEma.Period, emam(p.ShortEma), p.LongEma.Period, emam(p.LongEma))[k + p.SignalEma.Period - 1] - emaS(ppoS(volumes, p.ShortEma.Period, emam(p.ShortEma), p.LongEma.Period, emam(p.LongEma)), p.SignalEma.Period, emam(p.SignalEma), k)
+//@ ensures[C01,C18] "documented" forall k :: 0 <= k && k < len(result0) ==> result0[k] == ppoS(volumes, p.ShortEma.Period, emam(p.ShortEma), p.LongEma.Period, emam(p.LongEma))[k + p.SignalEma.Period - 1] && result1[k] == emaS(ppoS(volumes, p.ShortEma.Period, emam(p.ShortEma), p.LongEma.Period, emam(p.LongEma)), p.SignalEma.Period, emam(p.SignalEma), k) && result2[k] == ppoS(volumes, p.ShortEma.Period, emam(p.ShortEma), p.LongEma.Period, emam(p.LongEma))[k + p.SignalEma.Period - 1] - emaS(ppoS(volumes, p.ShortEma.Period, emam(p.ShortEma), p.LongEma.Period, emam(p.LongEma)), p.SignalEma.Period, emam(p.SignalEma), k)
 
 //@ func Qstick.Compute
 //@ requires q.Sma.Period >= 1 && consumed(openings) == 0 && consumed(closings) == 0 && len(openings) == len(closings)
 //@ ensures[C02] len(result) == max(0, len(openings) - (q.IdlePeriod()))
 //@ ensures[C03] consumed(openings) == len(openings) && consumed(closings) == len(closings) && closed(result)
 //@ ensures[C04] forall kk :: 0 <= kk && kk < len(result) ==> hor(result, kk) <= max(hor(openings, kk + (q.IdlePeriod())), hor(closings, kk + (q.IdlePeriod())))
-//@ step[C01] "difference" forall j :: 0 <= j && j < len(openings) ==> res(Subtract, 0)[j] == subS(closings, openings)[j]
+//@ step[C01,C18] "difference" forall j :: 0 <= j && j < len(openings) ==> res(Subtract, 0)[j] == subS(closings, openings)[j]
 //@ use psum_cong(res(Subtract, 0), subS(closings, openings), _)
-//@ ensures[C01] "documented" forall k :: 0 <= k && k < len(result) ==> result[k] == smaS(subS(closings, openings), q.Sma.Period)[k]
+//@ ensures[C01,C18] "documented" forall k :: 0 <= k && k < len(result) ==> result[k] == smaS(subS(closings, openings), q.Sma.Period)[k]
 
 // RSI = 100 - 100 / (1 + RS), RS = Wilder average of the gains / Wilder average of the losses (documented formula)
 //@ stream gainS(c stream)[j] = (c[j+1] - c[j] > 0 ? c[j+1] - c[j] : 0)
@@ -117,12 +117,12 @@ package momentum
 //@ ensures[C02] len(result) == max(0, len(closings) - (r.IdlePeriod()))
 //@ ensures[C03] consumed(closings) == len(closings) && closed(result)
 //@ ensures[C04] forall kk :: 0 <= kk && kk < len(result) ==> hor(result, kk) <= hor(closings, kk + (r.IdlePeriod()))
-//@ step[C01,C15] "gain-loss" forall j :: 0 <= j && j < len(closings) - 1 ==> res(KeepPositives, 0)[j] == gainS(closings)[j] && res(KeepNegatives, 0)[j] == lossS(closings)[j]
+//@ step[C01,C15,C18] "gain-loss" forall j :: 0 <= j && j < len(closings) - 1 ==> res(KeepPositives, 0)[j] == gainS(closings)[j] && res(KeepNegatives, 0)[j] == lossS(closings)[j]
 //@ use rma_cong(res(KeepPositives, 0), gainS(closings), r.Rma.Period, _)
 //@ use rma_cong(res(KeepNegatives, 0), lossS(closings), r.Rma.Period, _)
-//@ step[C01,C15] "averages" forall k :: 0 <= k && k < len(result) ==> rmaS(res(KeepPositives, 0), r.Rma.Period, k) == rmaS(gainS(closings), r.Rma.Period, k) && rmaS(res(KeepNegatives, 0), r.Rma.Period, k) == rmaS(lossS(closings), r.Rma.Period, k)
-//@ step[C01,C15] "formula" forall k :: 0 <= k && k < len(result) ==> result[k] == rsiS(closings, r.Rma.Period)[k]
-//@ ensures[C01] "formula" forall k :: 0 <= k && k < len(result) ==> result[k] == rsiS(closings, r.Rma.Period)[k]
+//@ step[C01,C15,C18] "averages" forall k :: 0 <= k && k < len(result) ==> rmaS(res(KeepPositives, 0), r.Rma.Period, k) == rmaS(gainS(closings), r.Rma.Period, k) && rmaS(res(KeepNegatives, 0), r.Rma.Period, k) == rmaS(lossS(closings), r.Rma.Period, k)
+//@ step[C01,C15,C18] "formula" forall k :: 0 <= k && k < len(result) ==> result[k] == rsiS(closings, r.Rma.Period)[k]
+//@ ensures[C01,C18] "formula" forall k :: 0 <= k && k < len(result) ==> result[k] == rsiS(closings, r.Rma.Period)[k]
 //@ use rsiS_range(closings, r.Rma.Period, _)
 //@ ensures[C15] "range" forall k :: 0 <= k && k < len(result) && rmaS(lossS(closings), r.Rma.Period, k) < 0 ==> 0 <= result[k] && result[k] <= 100
 
@@ -148,11 +148,11 @@ package momentum
 //@ ensures[C03] consumed(highs) == len(highs) && consumed(lows) == len(lows) && consumed(closings) == len(closings) && closed(result0) && closed(result1)
 //@ ensures[C04] forall kk :: 0 <= kk && kk < len(result0) ==> hor(result0, kk) <= max(hor(highs, kk + (s.IdlePeriod())), max(hor(lows, kk + (s.IdlePeriod())), hor(closings, kk + (s.IdlePeriod()))))
 //@ ensures[C04] forall kk :: 0 <= kk && kk < len(result1) ==> hor(result1, kk) <= max(hor(highs, kk + (s.IdlePeriod())), max(hor(lows, kk + (s.IdlePeriod())), hor(closings, kk + (s.IdlePeriod()))))
-//@ step[C01,C15] "k-formula" forall j :: 0 <= j && j < len(kSplice[0]) ==> kSplice[0][j] == stochKS(highs, lows, closings, s.Min.Period)[j]
-//@ ensures[C01] "k" forall k :: 0 <= k && k < len(result0) ==> result0[k] == stochKS(highs, lows, closings, s.Min.Period)[k + s.Sma.Period - 1]
+//@ step[C01,C15,C18] "k-formula" forall j :: 0 <= j && j < len(kSplice[0]) ==> kSplice[0][j] == stochKS(highs, lows, closings, s.Min.Period)[j]
+//@ ensures[C01,C18] "k" forall k :: 0 <= k && k < len(result0) ==> result0[k] == stochKS(highs, lows, closings, s.Min.Period)[k + s.Sma.Period - 1]
 //@ use psum_cong(kSplice[0], stochKS(highs, lows, closings, s.Min.Period), _)
-//@ step[C01,C15] "d-formula" forall k :: 0 <= k && k < len(result1) ==> result1[k] == stochDS(highs, lows, closings, s.Min.Period, s.Sma.Period)[k]
-//@ ensures[C01] "d" forall k :: 0 <= k && k < len(result1) ==> result1[k] == stochDS(highs, lows, closings, s.Min.Period, s.Sma.Period)[k]
+//@ step[C01,C15,C18] "d-formula" forall k :: 0 <= k && k < len(result1) ==> result1[k] == stochDS(highs, lows, closings, s.Min.Period, s.Sma.Period)[k]
+//@ ensures[C01,C18] "d" forall k :: 0 <= k && k < len(result1) ==> result1[k] == stochDS(highs, lows, closings, s.Min.Period, s.Sma.Period)[k]
 //@ use stochK_range(highs, lows, closings, s.Min.Period, _)
 //@ ensures[C15] "k-range" forall k :: 0 <= k && k < len(result0) && stochok(highs, lows, closings, s.Min.Period, k + s.Sma.Period - 1) ==> 0 <= result0[k] && result0[k] <= 100
 //@ use stochD_range(highs, lows, closings, s.Min.Period, s.Sma.Period, _)
@@ -179,11 +179,11 @@ package momentum
 //@ ensures[C02] len(result) == max(0, len(closings) - (s.IdlePeriod()))
 //@ ensures[C03] consumed(closings) == len(closings) && closed(result)
 //@ ensures[C04] forall kk :: 0 <= kk && kk < len(result) ==> hor(result, kk) <= hor(closings, kk + (s.IdlePeriod()))
-//@ step[C01,C15] "rsi" forall j :: 0 <= j && j < len(rsisSplice[1]) ==> rsisSplice[1][j] == rsiS(closings, s.Rsi.Rma.Period)[j] && rsisSplice[2][j] == rsiS(closings, s.Rsi.Rma.Period)[j]
+//@ step[C01,C15,C18] "rsi" forall j :: 0 <= j && j < len(rsisSplice[1]) ==> rsisSplice[1][j] == rsiS(closings, s.Rsi.Rma.Period)[j] && rsisSplice[2][j] == rsiS(closings, s.Rsi.Rma.Period)[j]
 //@ use wmin_cong(rsisSplice[1], rsiS(closings, s.Rsi.Rma.Period), _, _)
 //@ use wmax_cong(rsisSplice[2], rsiS(closings, s.Rsi.Rma.Period), _, _)
-//@ step[C01,C15] "formula" forall k :: 0 <= k && k < len(result) ==> result[k] == stochRsiS(closings, s.Rsi.Rma.Period, s.Min.Period)[k]
-//@ ensures[C01] "formula" forall k :: 0 <= k && k < len(result) ==> result[k] == stochRsiS(closings, s.Rsi.Rma.Period, s.Min.Period)[k]
+//@ step[C01,C15,C18] "formula" forall k :: 0 <= k && k < len(result) ==> result[k] == stochRsiS(closings, s.Rsi.Rma.Period, s.Min.Period)[k]
+//@ ensures[C01,C18] "formula" forall k :: 0 <= k && k < len(result) ==> result[k] == stochRsiS(closings, s.Rsi.Rma.Period, s.Min.Period)[k]
 //@ use stochRsi_range(closings, s.Rsi.Rma.Period, s.Min.Period, _)
 //@ ensures[C15] "range" forall k :: 0 <= k && k < len(result) && wminS(rsiS(closings, s.Rsi.Rma.Period), k, k + s.Min.Period) < wmaxS(rsiS(closings, s.Rsi.Rma.Period), k, k + s.Min.Period) ==> 0 <= result[k] && result[k] <= 1
 
@@ -192,7 +192,7 @@ package momentum
 //@ ensures[C02] len(result) == max(0, len(highs) - (w.IdlePeriod()))
 //@ ensures[C03] consumed(highs) == len(highs) && consumed(lows) == len(lows) && consumed(closings) == len(closings) && closed(result)
 //@ ensures[C04] forall kk :: 0 <= kk && kk < len(result) ==> hor(result, kk) <= max(hor(highs, kk + (w.IdlePeriod())), max(hor(lows, kk + (w.IdlePeriod())), hor(closings, kk + (w.IdlePeriod()))))
-//@ ensures[C01] "formula" forall k :: 0 <= k && k < len(result) ==> result[k] == (wmaxS(highs, k, k + w.Max.Period) - closings[k + w.Max.Period - 1]) / (wmaxS(highs, k, k + w.Max.Period) - wminS(lows, k, k + w.Max.Period)) * (0 - 100)
+//@ ensures[C01,C18] "formula" forall k :: 0 <= k && k < len(result) ==> result[k] == (wmaxS(highs, k, k + w.Max.Period) - closings[k + w.Max.Period - 1]) / (wmaxS(highs, k, k + w.Max.Period) - wminS(lows, k, k + w.Max.Period)) * (0 - 100)
 //@ ensures[C15] "range" forall k :: 0 <= k && k < len(result) && lows[k + w.Max.Period - 1] <= closings[k + w.Max.Period - 1] && closings[k + w.Max.Period - 1] <= highs[k + w.Max.Period - 1] && wminS(lows, k, k + w.Max.Period) < wmaxS(highs, k, k + w.Max.Period) ==> 0 - 100 <= result[k] && result[k] <= 0
 
 // ---- C18: scaling of the momentum formulas -----------------------------------------------------------------------
